@@ -30,8 +30,8 @@ type c02Decl struct {
 
 var c02Cache = map[string]*c02Decl{}
 
-func c02Get(kind int, short string, optional bool, pdd bool) *c02Decl {
-	key := fmt.Sprintf("%d/%s/%v/%v", kind, short, optional, pdd)
+func c02Get(kind int, short string, optional bool, pdd bool, nested bool) *c02Decl {
+	key := fmt.Sprintf("%d/%s/%v/%v/%v", kind, short, optional, pdd, nested)
 	if cd := c02Cache[key]; cd != nil {
 		return cd
 	}
@@ -47,6 +47,11 @@ func c02Get(kind int, short string, optional bool, pdd bool) *c02Decl {
 		{Field: "Four", Short: "4", Long: "four", Type: decl.TBool}, // a digit as short name: -42 is still a negative number after a numeric option
 		x,
 	}}
+	if nested {
+		// the option sits in a plain group inside a namespaced group: its long name is --db.name, its short name unchanged
+		top.Opts = top.Opts[:len(top.Opts)-1]
+		top.Groups = []*decl.Group{{Field: "Db", Name: "Db", Namespace: "db", Groups: []*decl.Group{{Field: "Pool", Name: "Pool", Opts: []*decl.Opt{x}}}}}
+	}
 	// a command that uses the same short letter for a flag (only reachable after its name)
 	top.Cmds = []*decl.Cmd{{Field: "Sync", Name: "sync", Opts: []*decl.Opt{{Field: "Dry", Short: short, Long: "dry", Type: decl.TBool}}}}
 	d := &decl.Decl{Top: top}
@@ -101,7 +106,7 @@ func init() {
 	// all value strings up to length 3 (quick) / 4 (thorough)
 	valsQ := append([]string{""}, allStrings(c02Alpha, 1, 3)...)
 	valsT := append([]string{""}, allStrings(c02Alpha, 1, 4)...)
-	extra := []string{"-5", "-.5", "-ff", "--", "-x", "a=b", "k:v", "-5.5e1", "-v", "--name", "-é", "-0.5", "-007", "-0", "-9", "-1e3", "-00", "-9.99", "on", "off", "-5s", "-1h2m", "-1f", "5s", "-1.5s", "-42", "-4", "-4.5", "-44"}
+	extra := []string{"-5", "-.5", "-ff", "--", "-x", "a=b", "k:v", "-5.5e1", "-v", "--name", "-é", "-0.5", "-007", "-0", "-9", "-1e3", "-00", "-9.99", "on", "off", "-5s", "-1h2m", "-1f", "5s", "-1.5s", "-42", "-4", "-4.5", "-44", "caf\xe9", "\xff", "`code`", "`a b` c"}
 
 	body := func(c *explore.Ctx) {
 		part := c.Choose(2)
@@ -115,6 +120,10 @@ func init() {
 		pdd := c.Bool()
 		ctx := c.Choose(3)
 		c02WarmUp = c.Deviate(2) == 1
+		nested := false
+		if ctx == 0 && !optional && !pdd && !c02WarmUp {
+			nested = c.Bool()
+		}
 		vals := valsQ
 		if c.Thorough {
 			vals = valsT
@@ -126,9 +135,12 @@ func init() {
 		} else {
 			V = extra[vi-len(vals)]
 		}
-		cd := c02Get(kind, short, optional, pdd)
+		cd := c02Get(kind, short, optional, pdd, nested)
 		k := c02Kinds[kind]
 		S, L := "-"+short, "--name"
+		if nested {
+			L = "--db.name"
+		}
 		Q := strconv.Quote(V)
 		base := cd.x.BaseN()
 		// admissibility of the separate-token form for an argument text
@@ -179,7 +191,7 @@ func init() {
 			return toks
 		}
 		c.Describe(func() interface{} {
-			return map[string]interface{}{"part": "spellings", "type": k.T.Name, "base": base, "short": short, "optional_argument": optional, "pass_double_dash": pdd, "context": ctx, "V": V, "parser_used_before": c02WarmUp}
+			return map[string]interface{}{"part": "spellings", "type": k.T.Name, "base": base, "short": short, "optional_argument": optional, "pass_double_dash": pdd, "context": ctx, "V": V, "parser_used_before": c02WarmUp, "option_in_plain_group_inside_namespaced_group": nested}
 		})
 		var first string
 		var firstSp c02Spelling
@@ -222,7 +234,7 @@ func init() {
 		ShardDepth: 6,
 		Body:       body,
 		Rule: "option types {string, int, float64, []string, map[string]string, func(string), int base 16, []int, []*int, a bool-kinded Unmarshaler, time.Duration} (a flag with the digit short name -4 is declared next to it) x short name {x, é (2 bytes), € (3 bytes)} x optional-argument {no, yes} x PassDoubleDash {off, on} x context {alone, between two other options, before a plain word} x {fresh parser, parser that parsed [sync -x] before, where sync declares the same short letter as a flag} " +
-			"x value V in every string of length <= 3 (quick) / <= 4 (thorough) over {v = - . 5 0 \" \\ é : space f I} plus 29 hand-picked values (negative numbers in three notations, --, option-looking words); for each cell all admissible spellings among " +
+			"x value V in every string of length <= 3 (quick) / <= 4 (thorough) over {v = - . 5 0 \" \\ é : space f I} plus 33 hand-picked values (negative numbers in three notations, --, option-looking words, bytes that are not valid UTF-8, back-quoted text); in the simplest cell also with the option declared in a plain group inside a namespaced group (long name --db.name); for each cell all admissible spellings among " +
 			"{-xV, -x=V, -x V, --name=V, --name V} x {V, V as a double-quoted Go literal} are parsed and must give one identical outcome (all values, callback log, remaining arguments, error type); " +
 			"plus every flag cluster of <= 4 over {a (bool), b ([]bool), é (func())} and every cluster ending in an argument-taking option (x or é) against its separated form; distinct = distinct (type, short, outcome)",
 		Assumptions:  []string{"separate-token form demanded only where the statement allows it: not for optional-argument options, not when V has option syntax unless V is a clear numeral of the signed numeric option's own type and base, not for -- under PassDoubleDash", "-xV not demanded when V is empty or starts with '='"},
